@@ -28,7 +28,8 @@ def parsePeriod (e : Env) (value : Str) : Option TimePeriod :=
       | some [some d, o] => some ⟨none, none, some d, o⟩
       | _ => none
     else if startsWith value ['-', '-'] then
-      let value := if slice value 4 6 = ['-', '-'] then value.take 4 ++ value.drop 6 else value
+      let value := if slice value 4 6 = ['-', '-'] && (value.length = 6 || value.length = 7 || value.length = 12)
+        then value.take 4 ++ value.drop 6 else value
       if value.length = 4 || value.length = 5 || value.length = 10 then
         match parseDateArgs e value Tables.fmtGMonth with
         | some [some m, o] => some ⟨none, some m, none, o⟩
